@@ -3,7 +3,7 @@ package specs
 import "verifharness/fw"
 
 func init() {
-	fw.Reg(&fw.Spec{ID: "C19", Level: "exploration", Quick: 160, Thorough: 960, CaseTimeoutS: 400, Race: true,
+	fw.Reg(&fw.Spec{ID: "C19", Level: "exploration", Quick: 160, Thorough: 2400, CaseTimeoutS: 400, Race: true,
 		Rule: "the worker is built with -race (GORACE halt_on_error=0, one log per worker process); case i runs scenario family i mod 8 with a fresh seed: concurrent / mix / inverse / N-M / DAG models with laggard holds and returning rules (result map and error list contended), the same with shared local names, conc blocks, pool storms (C06), capacity storms (C17), update histories concurrent with executions (C07), management rounds (C16) and a management storm (updates, removal, clear, exec-model changes and queries concurrent with requests through all pool methods); GOMAXPROCS varied, hook jitter on. Every WARNING: DATA RACE block is parsed; it is a violation when the innermost frame outside runtime/reflect/sync of at least one access is in github.com/bilibili/gengine; reports wholly inside the ANTLR runtime are out of scope; reports are deduplicated by the pair of innermost gengine functions; distinct = scenario signatures of the underlying families",
 		Assumptions: []string{"workloads are race-free on the user side by construction (concurrently running rules touch disjoint injected objects, observers use mutexes/atomics, compiles are serialised)", "the oracles of the underlying families are muted here: only race reports decide C19", "a race must be executed to be reported: silence covers the interleavings and code paths the workload reached"},
 		MinCounters: map[string]int64{"holds_entered": 100, "requests_overlapping_mid_rule": 100, "executions_overlapping_an_update": 100, "management_calls_during_requests": 100, "clears_during_requests": 5, "exec_model_changes_during_requests": 5}})
